@@ -95,6 +95,12 @@ class Shadow(object):
                 return
         raise Rejected('UnrelateException')
 
+    def partners_any(self, r, rel):
+        for i, a in enumerate(self.schema.assocs):
+            if a['rel'] == rel and any(p is r or q is r for p, q in self.links[i]):
+                return True
+        return False
+
     # -- reads ------------------------------------------------------------------
     def partners(self, i, r, forward):
         """forward: r is on the src end, result = its tgt partners, in link order."""
